@@ -4,7 +4,7 @@ CONSTANTS
   Heads <- HeadsTty
   Levels = {}
   Calls = {}
-  TextBytes = {0, 1, 2, 3, 97}
+  TextBytes = {1, 2, 3, 97}
   MaxText = 3
   Ops = {"abort"}
   LogMax = 256
